@@ -409,6 +409,7 @@ CAPS = {
     'g2_reflexive_assoc_class': ({'A': 2, 'C': 2}, {'A': 3, 'C': 3}),
     'h_subsuper': ({'P': 2, 'S1': 2, 'S2': 2}, {'P': 3, 'S1': 2, 'S2': 2}),
     'i_two_single_refs': ({'A': 2, 'B': 1, 'C': 2}, {'A': 2, 'B': 2, 'C': 3}),
+    'j_compound_key': ({'A': 2, 'B': 2}, {'A': 2, 'B': 3}),
 }
 
 
